@@ -17,14 +17,16 @@ UTIL = "wntr/epanet/util.py"
 
 EXPLANATION = (
     "Static analysis of the EPANET exchange path: (R-C03-1) BinFile.read's converting part is executed abstractly once per link-type code (0-8), status "
-    "code (0-7), quality type and convert_status flag - every mask is then a plain truth value and every table the raw block of the file plus the "
-    "conversions applied to it - and what reaches results.node / results.link must be: every result table converted to SI exactly once with a parameter of the "
+    "code (0-7), quality type and convert_status flag, and what reaches results.node / results.link must be: every result table converted to SI exactly once with a parameter of the "
     "conversion class of its physical dimension (demand/flow: flow; head: length; pressure: pressure; velocity; head loss: per-1000 for pipes, "
     "length for pumps and valves; settings: roughness for pipes with the Darcy-Weisbach flag, pressure for PRV/PSV/PBV, flow for FCV, none for "
-    "TCV/GPV/pumps; quality by quality type), always with the flow-unit system read from the header of the same file; two parameters are the "
-    "same class when their reference factors agree for every unit system (so HydParam.Length and HydParam.HydraulicHead are interchangeable); "
-    "(R-C03-2) EpanetSimulator.run_sim writes the INP in options.hydraulic.inpfile_units, opens EPANET on that file and reads the binary file of "
-    "the same run, passing the Darcy-Weisbach flag from the head-loss option; (R-C03-3) the status codes of the binary file are mapped "
+    "TCV/GPV/pumps; quality by quality type), always with the flow-unit system read from the header of the same file; two parameters count as the "
+    "same class when the harness's own reference factors (c17.ref_hyd) agree at GPM, LPS and SI only -- Length, HydraulicHead, Elevation, "
+    "TankDiameter and Velocity share one signature, so converting velocity as a length would pass (T2, symbolic execution; FlowUnits(x[9]) by AST pattern); "
+    "(R-C03-2, T1 AST / text match: calls found by name, unparsed argument text compared, order by the line number of the first call of each name) "
+    "EpanetSimulator.run_sim writes the INP in options.hydraulic.inpfile_units, opens EPANET on that file and reads the binary file of "
+    "the same run, passing the Darcy-Weisbach flag from the head-loss option; START CLOCKTIME round-trips on 72 clock times (T3, bounded); "
+    "(R-C03-3, exhaustive over the codes 0-7) the status codes of the binary file are mapped "
     "{0,1,2}->0 (closed), {3,5,6,7}->1 (open), {4}->2 (active), read off the same abstract execution for each of the eight codes. "
     "The writer's per-field conversions are decided under C12 and the conversion constants under C17. Decides only this clause.")
 RULE_TEXT = "one instance = one result table, one (table, link-type code) or (table, quality type) pair, one argument of the exchange calls, one status code; distinct = distinct constructs"
